@@ -31,6 +31,7 @@ class Cfg:
     twin_leaf_prob: float = 0.12
     mapping_payloads: bool = True
     max_expanded_nodes: int = 60  # size of the program with shared operands written out
+    big_leaf_prob: float = 0.01  # probability that a leaf has 40-130 rows over a wider value range
     tall_prob: float = 0.05  # probability that a level stacks 5-9 unary operations instead of 0..max_unary
     wide_prob: float = 0.1  # probability that a binary operation is immediately followed by another one (3-way)
     lookalike_prob: float = 0.0  # probability that a calculation / selection reuses an earlier expression of the case with its literals re-typed
@@ -78,6 +79,11 @@ class Gen:
             return ["leaf", name], frozenset(cols), engine
         n = rng.choice(cfg.max_rows_choices)
         lo, hi = cfg.value_range
+        if cfg.big_leaf_prob and rng.random() < cfg.big_leaf_prob:
+            # scale: code that changes its behaviour with the number of rows (batching, thresholds,
+            # bind-parameter limits) never shows on a dozen rows
+            n = rng.choice([40, 70, 130])
+            lo, hi = lo - 12, hi + 12
         keycols = [c for c in cols if is_key(c)]
         fd_ok = rng.random() < 0.9
         rows = []
